@@ -13,8 +13,8 @@ import hashlib
 
 VERIF = os.path.dirname(os.path.dirname(os.path.abspath(__file__)))
 SPECS = os.path.join(VERIF, "specs")
-EVIDENCE = os.path.join(VERIF, "evidence")
-REPLAYS = os.path.join(VERIF, "replays")
+EVIDENCE = os.environ.get("VERIF_EVIDENCE_DIR", os.path.join(VERIF, "evidence"))   # selftest redirects it
+REPLAYS = os.path.join(VERIF, "replays") if "VERIF_EVIDENCE_DIR" not in os.environ else os.path.join(os.environ["VERIF_EVIDENCE_DIR"], "replays")
 KNOWN = os.path.join(VERIF, "KNOWN_FINDINGS.json")
 REPO = os.environ.get("OPTIMISM_SRC", "/repo")
 
